@@ -22,7 +22,7 @@ func init() {
 		[]string{"uint8 arithmetic wraps"},
 		runC09)
 	register("C10",
-		"GBNHS-1: in serverHandshake the N echoed in the SYN reply and the argument of setN are the same value, read from the N field of a received PacketSYN and proved <= 254; the 'resent' shortcut can only be taken after a SYN was processed. GBNHS-2: in clientHandshake the SYNACK is sent only under respSYN.N == cfg.n and the unequal leg returns an error. GBNHS-3: while waiting for SYN a successfully parsed non-SYN packet cannot complete the handshake without another receive (client: any type; server: except SYNACK/DATA after a restart). GBNHS-4: NewClientConn rejects n == 255 before the config is built. GBNHS-7: in clientHandshake every path from a timeout leg back to the wait passes a send of a serialized SYN; the server's restart shortcut is entered only through a successful type test for SYNACK or DATA. GBNHS-6: every blocking wait of a handshake function that has a timeout alternative is entered with a freshly armed timeout (time.After evaluated, or the timer Reset, on every path from the wait back to itself); every nil return of serverHandshake outside the quit/ctx cases is preceded by setN. GBNHS-5: in both handshake functions every blocking wait on the local packet channel is preceded - from function entry and from the point where the previous packet was taken - by a send attempt on the local token channel that lets the reader goroutine perform the next receive (so a stale packet that is ignored does not leave the handshake waiting for a timeout). Not decided: convergence under loss/duplication/stale packets and success once the transport behaves (liveness).",
+		"GBNHS-1: in serverHandshake the N echoed in the SYN reply and the argument of setN are the same value, read from the N field of a received PacketSYN and proved <= 254; the 'resent' shortcut can only be taken after a SYN was processed. GBNHS-2: in clientHandshake the SYNACK is sent only under respSYN.N == cfg.n and the unequal leg returns an error. GBNHS-3: while waiting for SYN a successfully parsed non-SYN packet cannot complete the handshake without another receive (client: any type; server: except SYNACK/DATA after a restart). GBNHS-4: NewClientConn rejects n == 255 before the config is built. GBNHS-7: in clientHandshake every path from a timeout leg back to the wait passes a send of a serialized SYN; the server's restart shortcut is entered only through a successful type test for SYNACK or DATA. GBNHS-6: every blocking wait of a handshake function that has a timeout alternative is entered with a freshly armed timeout (time.After evaluated, or the timer Reset, on every path from the wait back to itself); every nil return of serverHandshake outside the quit/ctx cases is preceded by setN. GBNHS-5: in both handshake functions every blocking wait on the local packet channel is preceded - from function entry and from the point where the previous packet was taken - by a send attempt on the local token channel that lets the reader goroutine perform the next receive (so a stale packet that is ignored does not leave the handshake waiting for a timeout). GBNHS-5 also: the re-arm send on the token channel is non-blocking. Not decided: convergence under loss/duplication/stale packets and success once the transport behaves (liveness).",
 		nil,
 		runC10)
 }
